@@ -18,10 +18,13 @@ find_cluster_centers, partition_indices, partition_list and
 ClusterResult.partition and compares projections.
 
 Binding (B): outputs of KCenters(...).fit(X).predict(Y), of compute_batches,
-of assignments on seeded random lattice data and of batch_reassign on small
-mdtraj trajectories are recorded as integers and judged by TLC
-(Trace_Assign.tla / Trace_Partition.tla) with the same clause operators.
-Python only projects, runs processes and keeps books.
+of assignments on seeded random lattice data, of the file-based
+reassign(topologies, trajectories, atoms, centers) (1-3 groups, every pattern
+of same/different topology files and same/different atom selections) and of
+batch_reassign on small generated mdtraj trajectories are recorded as
+integers (for RMSD: together with a recorded md.rmsd distance table) and
+judged by TLC (Trace_Assign.tla / Trace_Partition.tla) with the same clause
+operators.  Python only projects, runs processes and keeps books.
 """
 import json
 import os
@@ -589,6 +592,18 @@ def _rs_pieces(x):
     return [np.asarray(x[i]).ravel() for i in range(len(x))]
 
 
+def _stop_loky():
+    """joblib's reusable worker pool (started by reassign when it runs with more than one process) would keep
+    the forked recorder process alive at exit until the workers' idle timeout (300 s)."""
+    try:
+        from joblib.externals.loky import reusable_executor as rx
+        ex = getattr(rx, "_executor", None)
+        if ex is not None:
+            ex.shutdown(wait=True, kill_workers=True)
+    except Exception:
+        pass
+
+
 def reassign_records(seed, wd, select=None, only=None, nprocs=None):
     """Runs in the main process (reassign starts its own pools).  select: predicate on scenarios;
     only: a scenario number (replay); nprocs: override the number of loader processes."""
@@ -671,6 +686,8 @@ def reassign_records(seed, wd, select=None, only=None, nprocs=None):
                          "lengths": flat_lengths, "rowlens": la if la == ld else [-1], "_gen": gen})
     finally:
         util.determine_batch_size = real_dbs
+        if nprocs is not None and nprocs > 1:
+            _stop_loky()
         if real_omp is None:
             os.environ.pop("OMP_NUM_THREADS", None)
         else:
